@@ -18,6 +18,10 @@ ASSUMPTIONS = [
     "stream 'memlink' (a value-less in-memory PythonNode that is the product of one task and a dependency of another): the engine model M6 "
     "has no stateless nodes, so this stream is judged by the implementation-only oracle (same rules, dependency relation from the spec) "
     "without model replay; the theorems cover it as graph shape (taskDesc / taskAnc over whatever vertices lie between two tasks)",
+    "stream 'latelink' (a DirectoryNode dependency whose pattern matches the left-over ordinary product of another task: the edge appears "
+    "only when the consumer's setup resolves the pattern): implementation-only oracle, several PYTHONHASHSEEDs per project (the two tasks "
+    "are unordered before the resolution); the dependency counts iff the file existed before the build; selections are judged over the "
+    "statically known edges, and a consumer whose late producer is deselected is not judged",
     "stream 'generator' (tasks created during the build by a selected task generator): the static engine model has no generators; "
     "implementation-only oracle with the eligible set computed from the spec including the generated tasks; a generated task exists only "
     "if its generator ran, so it is judged only when it is reported or executed; -m expressions of this stream do not name 'skip'/'skipif'",
@@ -47,6 +51,18 @@ def oracle(hist, records):
         spec, obs, cfg = rec["spec"], rec["obs"], rec["cfg"]
         static_spec = spec
         spec, optional = ext_spec(spec)      # generated tasks exist only if their generator ran
+        late = set()
+        late_edges = set()
+        if any(t.get("late_deps") for t in spec["tasks"]):
+            # a pattern dependency on a file that exists before the build is a dependency on the task producing that file
+            spec = copy.deepcopy(spec)
+            prod_of = {p: u["id"] for u in spec["tasks"] for p in u["prods"]}
+            for t in spec["tasks"]:
+                for n in t.get("late_deps", []):
+                    if rec["pre"].get(n) is not None and prod_of.get(n) not in (None, t["id"]):
+                        t.setdefault("mem_in", []).append(prod_of[n])
+                        late.add(t["id"])
+                        late_edges.add((prod_of[n], t["id"]))
         if obs.get("raised") or obs.get("exit") not in (0, 1):
             bad.append(("exit", f"build raised / exit {obs.get('exit')} {obs.get('raised')}", None))
             continue
@@ -54,6 +70,19 @@ def oracle(hist, records):
         ex = set(engine.executed(obs))
         usk = engine.user_skipped_closure(spec)
         usk_nof1, el_nof1 = closures_without_f1(spec, cfg)
+        usk_unjudged = set()
+        if late_edges:
+            # a pattern is resolved only when its consumer is set up: through ONE late link the dependants of a skipped task are
+            # known in time (the skip is decided statically, the link exists once the consumer resolved it); behind a second
+            # unresolved pattern they are not (the farther consumer may be set up first) — such tasks are not judged
+            st_edges = engine.spec_task_edges(spec) - late_edges
+            s0 = set(engine.user_skipped_closure(static_spec))
+            s1 = set(s0)
+            for (u, v) in late_edges:
+                if u in s0:
+                    s1 |= {v} | engine.closure(st_edges, v, forward=True)
+            usk_unjudged = usk - s1
+            usk = s1
         for t in usk:
             f = "F1" if t not in usk_nof1 else None      # in the closure only through a product-less after-edge
             if t in ex:
@@ -62,6 +91,14 @@ def oracle(hist, records):
                 bad.append(("skip" + ("-F1" if f else ""), f"skipped task {t} reported FAIL", f))
         el = engine.eligible(spec, cfg)
         unjudged = set()
+        if late:
+            el_static = engine.eligible(static_spec, cfg)
+            edges_e = engine.spec_task_edges(spec)
+            lateclosed = set(late)
+            for k in late:
+                lateclosed |= engine.closure(edges_e, k, forward=True)
+            unjudged = {k for k in lateclosed if not engine.closure(edges_e, k, forward=False) <= el_static}
+            el = el_static
         if optional:
             # what a generated task needs cannot be known when the static tasks are selected: static tasks are judged by the
             # selection over the static project; a generated task that matches but needs a deselected task is not judged
@@ -77,7 +114,7 @@ def oracle(hist, records):
             if out.get(t) != "SKIP":
                 bad.append(("select", f"task {t} is not eligible under k={cfg.get('k')!r} m={cfg.get('m')!r} but is reported {out.get(t)}", None))
         # "exactly": SKIP is only ever reported for tasks that are deselected or in the closure of a user-skipped task
-        for t in el - usk - unjudged:
+        for t in el - usk - unjudged - usk_unjudged:
             if out.get(t) == "SKIP":
                 f = "F1" if t not in el_nof1 else None   # needed by a selected task only through a product-less after-edge
                 bad.append(("only" + ("-F1" if f else ""), f"task {t} is eligible under k={cfg.get('k')!r} m={cfg.get('m')!r} and neither it nor anything it depends on carries a "
@@ -303,6 +340,59 @@ def memlink_histories(ctx):
     return hs
 
 
+def latelink_histories(ctx):
+    """Labelled stream "latelink": producers of ordinary files that are skipped / skipif(True) / deselected × consumers that reach those
+    files through a DirectoryNode pattern × left-over files from an earlier build × several hash seeds (each project is repeated so
+    that it runs under different PYTHONHASHSEEDs; producer and consumer are unordered until the pattern is resolved)."""
+    rng = ctx.rng
+    hs = []
+    reps = 4 if not ctx.thorough else 8
+    k = 0
+    for mk in (["skip"], ["skipif_true"], ["skipif_true_e"], None):
+        for ids in ((0, 1, 2), (3, 1, 2), (0, 4, 2), (5, 6, 7)):
+            k += 1
+            if not ctx.thorough and ctx.budget == 1.0 and k % 2:
+                continue
+            a, b, c = ids
+            base = {"tasks": [
+                {"id": a, "module": 0, "deps": [100], "prods": [110], "after": [], "marks": [], "beh": "ok", "style": "default"},
+                {"id": b, "module": 1, "deps": [], "late_deps": [110], "prods": [111], "after": [], "marks": [], "beh": "ok", "style": "annotated"},
+                {"id": c, "module": 2, "deps": [111], "prods": [112], "after": [], "marks": [], "beh": "ok", "style": "default"}],
+                "versions": {"0": 0, "1": 0, "2": 0}, "inputs": {"100": 5}}
+            marked = copy.deepcopy(base)
+            cfg = {}
+            if mk is None:
+                cfg = {"k": project.tname(b) + " or " + project.tname(c)}     # the producer is deselected
+            else:
+                marked["tasks"][0]["marks"] = list(mk)
+            # build everything, then mark the producer; the consumer's module changed, so it is out of date
+            steps = [["build", {}], ["respec", marked], ["bump", 1], ["build", cfg]]
+            for _ in range(reps):
+                hs.append({"tag": "latelink", "spec": base, "steps": steps})
+    for i in range(ctx.scale(12, 200)):
+        spec = engine.gen_spec(rng, nt=(3, 6), after_p=0.1, after_needs_prods=True, dens=0.8, prodless_p=0.05, nomods=(2, 3),
+                               styles=("default", "annotated"))
+        prod_of = {p: t["id"] for t in spec["tasks"] for p in t["prods"]}
+        changed = False
+        for t in spec["tasks"]:
+            for d in list(t["deps"]):
+                if d in prod_of and prod_of[d] != t["id"] and rng.random() < 0.5:
+                    t["deps"].remove(d)
+                    t.setdefault("late_deps", []).append(d)
+                    changed = True
+        if not changed:
+            continue
+        marked = copy.deepcopy(spec)
+        prods = [t for t in marked["tasks"] if t["prods"]]
+        for t in rng.sample(prods, rng.randint(1, min(2, len(prods)))):
+            t["marks"].append(rng.choice(["skip", "skipif_true"]))
+        steps = [["build", {}], ["respec", marked]] + [["bump", m] for m in sorted({t["module"] for t in spec["tasks"]})] + \
+                [["build", {"force": True} if rng.random() < 0.3 else {}]]
+        for _ in range(3):
+            hs.append({"tag": "latelink", "spec": spec, "steps": steps})
+    return hs
+
+
 def generator_histories(ctx):
     """Labelled stream "generator": a selected task generator creates a task during the build; the selection must apply to it."""
     rng = ctx.rng
@@ -392,13 +482,16 @@ def run(ctx):
     engine.run_campaign(ctx, memlink_histories(ctx), oracle, nontrivial=nontrivial, compare_model=False)
     ctx.extra["memlink_stream_nontrivial"] = len(ctx.nontrivial) - before
     before = len(ctx.nontrivial)
+    engine.run_campaign(ctx, latelink_histories(ctx), oracle, nontrivial=nontrivial, compare_model=False)
+    ctx.extra["latelink_stream_nontrivial"] = len(ctx.nontrivial) - before
+    before = len(ctx.nontrivial)
     engine.run_campaign(ctx, generator_histories(ctx), oracle, nontrivial=nontrivial_gen, compare_model=False)
     ctx.extra["generator_stream_nontrivial"] = len(ctx.nontrivial) - before
 
 
 def replay(ctx, obj):
     h = obj["input"]["history"]
-    engine.run_campaign(ctx, [h] * 4, oracle, sel_eval=engine.sel_eval, compare_model=h.get("tag") not in ("memlink", "generator"))
+    engine.run_campaign(ctx, [h] * 4, oracle, sel_eval=engine.sel_eval, compare_model=h.get("tag") not in ("memlink", "generator", "latelink"))
     if ctx.violations:
         return False, ctx.violations[0]["what"]
     if ctx.disagreements:
